@@ -15,3 +15,6 @@ def run(rep, tier, seed, scratch):
     for u in (StepCtl(), Loop(), PICtl()):
         run_unit(rep, u, u.gen(g, tier), scratch)
     camp_props.run_single(rep, 'C15', tier, seed, 30, 250, allow={'step_control_type': ['Exact', 'Exact', 'DistanceRatio', 'ResiduumRatio', 'Fixed'], 'iteration_limit': 60})
+    # single precision: the step size of a trial is still the inverse of the lambda the controller returned
+    camp_props.run_single(rep, 'C15', tier, seed + 4, 10, 50, allow={'precision': 'Single', 'lamb_init': [3.0, 1.0, 0.7], 'iteration_limit': 40},
+                          families=['convex_qp'], name='single_precision', scaling=False)
